@@ -108,6 +108,9 @@ struct State {
     mutex_holder: HashMap<usize, (usize, usize)>,
     abort_reason: Option<String>,
     body_deliveries: u32,
+    /// Offer a delivery right after each shim operation too (before the non-atomic code that
+    /// follows it), as long as the delivery budget lasts.
+    post_points: bool,
     /// Locations whose operations are not scheduling points (nobody else ever touches them).
     quiet: std::collections::HashSet<usize>,
     deliver: Option<DeliverFn>,
@@ -377,6 +380,21 @@ fn hook_after(op: &Op, old: u64, new: u64, ok: bool) {
         new,
         ok,
     });
+    let post = st.post_points && op.kind != Kind::Event && op.kind != Kind::MutexUnlock;
+    if post && abort.is_none() {
+        drop(st);
+        let post_op = Op {
+            kind: Kind::Event,
+            loc: 0,
+            ord: Ordering::Relaxed,
+            fail: Ordering::Relaxed,
+            a: 0,
+            b: 0,
+            name: "post",
+        };
+        hook_before(&post_op);
+        return;
+    }
     if let Some(reason) = abort {
         st.abort_reason = Some(reason.to_string());
         st.threads[i].status = Status::Parked;
@@ -484,10 +502,16 @@ pub struct View<'a> {
     pub depth: &'a [usize],
     pub last: Option<usize>,
     pub step: usize,
+    /// Everything logged so far in this run.
+    pub log: &'a [Event],
 }
 
 pub trait Strategy {
     fn choose(&mut self, view: &View) -> usize;
+    /// A strategy may conclude that the run can never end (e.g. it found a fair cycle).
+    fn verdict(&self) -> Option<String> {
+        None
+    }
 }
 
 #[derive(Clone)]
@@ -523,6 +547,9 @@ pub struct RunCfg {
     pub on_stuck: Option<Arc<dyn Fn() -> bool + Send + Sync + 'static>>,
     /// Addresses whose operations are logged but are no scheduling points.
     pub quiet: Vec<usize>,
+    /// Also offer deliveries immediately after every shim operation of a thread (a signal
+    /// landing before the non-atomic code that follows the operation).
+    pub post_points: bool,
     /// What a delivery runs (default: the registry's real dispatcher).
     pub deliver: Option<DeliverFn>,
 }
@@ -544,6 +571,7 @@ impl Default for RunCfg {
             deliver_requires_lib: false,
             on_stuck: None,
             quiet: vec![],
+            post_points: false,
             deliver: None,
         }
     }
@@ -558,6 +586,10 @@ pub enum Outcome {
     Unstuck(String),
     /// A thread kept spinning although nobody else could step any more.
     Livelock,
+    /// The strategy found a fair cycle: the same shared state and the same thread positions recur
+    /// while every other thread keeps completing finite operations and the waiting thread never
+    /// observes what it waits for.
+    Lasso(String),
     StepLimit,
     Aborted(String),
 }
@@ -603,6 +635,7 @@ pub fn run(bodies: Vec<Body>, strategy: &mut dyn Strategy, cfg: &RunCfg) -> RunR
         st.active = true;
         st.deliver = cfg.deliver.clone();
         st.quiet = cfg.quiet.iter().copied().collect();
+        st.post_points = cfg.post_points && cfg.max_deliveries > 0;
         for _ in 0..n {
             st.threads.push(VThread {
                 status: Status::Spawned,
@@ -744,6 +777,14 @@ pub fn run(bodies: Vec<Body>, strategy: &mut dyn Strategy, cfg: &RunCfg) -> RunR
         if let Some(h) = in_handler {
             steps.retain(|t| *t == h);
         }
+        // A thread parked right after one of its operations: only it goes on (or takes a
+        // delivery there); this is not a preemption point for the others.
+        let at_post: Option<usize> = st.threads.iter().position(|t| {
+            t.status == Status::Parked && t.pending.map(|o| o.name == "post").unwrap_or(false)
+        });
+        if let Some(p) = at_post {
+            steps.retain(|t| *t == p);
+        }
         if steps.iter().any(|t| !st.threads[*t].yielded) {
             steps.retain(|t| !st.threads[*t].yielded);
             solo_spin = 0;
@@ -780,6 +821,9 @@ pub fn run(bodies: Vec<Body>, strategy: &mut dyn Strategy, cfg: &RunCfg) -> RunR
         }
         if deliveries < cfg.max_deliveries && in_handler.is_none() {
             for t in &cfg.deliver_on {
+                if at_post.is_some() && at_post != Some(*t) {
+                    continue;
+                }
                 let th = &st.threads[*t];
                 if th.status == Status::Parked && th.depth < cfg.max_nested {
                     let at_start = th.pending.map(|o| o.name == "start").unwrap_or(false);
@@ -838,7 +882,12 @@ pub fn run(bodies: Vec<Body>, strategy: &mut dyn Strategy, cfg: &RunCfg) -> RunR
             depth: &depth,
             last,
             step,
+            log: &st.log,
         });
+        if let Some(v) = strategy.verdict() {
+            outcome = Outcome::Lasso(v);
+            break;
+        }
         if idx >= choices.len() {
             outcome = Outcome::Aborted(format!("strategy chose {} of {}", idx, choices.len()));
             break;
@@ -888,6 +937,9 @@ pub fn run(bodies: Vec<Body>, strategy: &mut dyn Strategy, cfg: &RunCfg) -> RunR
             }
             Choice::Deliver(t, sig) => {
                 deliveries += 1;
+                if deliveries >= cfg.max_deliveries {
+                    st.post_points = false;
+                }
                 st.threads[t].cmd = Some(Cmd::Deliver(sig, deliveries as u32));
                 st.threads[t].status = Status::Running;
                 last = Some(t);
@@ -1082,3 +1134,133 @@ pub fn kind_name(k: Kind) -> &'static str {
 }
 
 pub type ArcBody = Arc<dyn Fn() + Send + Sync + 'static>;
+
+/// Adversarial but fair schedule for C18: reader threads (indices 0..readers) take turns so that
+/// at least one of them is inside a read section at every instant, each section is finite, and
+/// the writer (index `readers`) runs one barrier iteration per turn. If the writer keeps spinning
+/// through periods in which the shared state and all positions recur and it never loads a zero,
+/// the execution can be repeated forever: a fair cycle in which the mutator never returns.
+pub struct Chain {
+    readers: usize,
+    phase: u8,
+    turn: usize,
+    hints_in_turn: usize,
+    last_sig_at: usize,
+    sigs: Vec<(String, bool)>,
+    verdict: Option<String>,
+    pub writer_hints: usize,
+}
+
+impl Chain {
+    pub fn new(readers: usize) -> Self {
+        Chain {
+            readers,
+            phase: 0,
+            turn: 0,
+            hints_in_turn: 0,
+            last_sig_at: 0,
+            sigs: Vec::new(),
+            verdict: None,
+            writer_hints: 0,
+        }
+    }
+    fn inside(view: &View, t: usize) -> bool {
+        view.pending[t].map(|o| o.kind == Kind::FetchSub).unwrap_or(false)
+    }
+    fn pick(view: &View, t: usize) -> Option<usize> {
+        view.choices.iter().position(|c| *c == Choice::Step(t))
+    }
+}
+
+impl Strategy for Chain {
+    fn choose(&mut self, view: &View) -> usize {
+        let w = self.readers;
+        // phases: 0 = let reader `turn` enter; 1 = let the other reader(s) leave; 2 = writer
+        for _ in 0..6 {
+            match self.phase {
+                0 => {
+                    let a = self.turn % self.readers;
+                    if view.pending[a].is_some() && !Self::inside(view, a) {
+                        if let Some(i) = Self::pick(view, a) {
+                            return i;
+                        }
+                    }
+                    self.phase = 1;
+                }
+                1 => {
+                    let a = self.turn % self.readers;
+                    let other = (0..self.readers).find(|t| *t != a && Self::inside(view, *t));
+                    if let Some(b) = other {
+                        if let Some(i) = Self::pick(view, b) {
+                            return i;
+                        }
+                    }
+                    self.phase = 2;
+                    self.hints_in_turn = 0;
+                }
+                _ => {
+                    let at_hint = view.pending[w]
+                        .map(|o| matches!(o.kind, Kind::Spin | Kind::Yield))
+                        .unwrap_or(false);
+                    let can = Self::pick(view, w);
+                    // (after a hint the scheduler does not offer the spinning thread again until
+                    // somebody else has stepped)
+                    if self.hints_in_turn >= 1 && (at_hint || can.is_none()) {
+                        // one barrier iteration done: take a signature, then next turn
+                        let mut vals: std::collections::BTreeMap<usize, u64> = Default::default();
+                        let mut zero = false;
+                        for (k, ev) in view.log.iter().enumerate() {
+                            if ev.kind != Kind::Event && ev.loc != 0 {
+                                vals.insert(ev.loc, ev.new);
+                            }
+                            if k >= self.last_sig_at && ev.thr == w && ev.kind == Kind::Load && ev.old == 0 {
+                                zero = true;
+                            }
+                        }
+                        // addresses are stable within a run; pointers (data) change per store
+                        let pos: Vec<String> = view
+                            .pending
+                            .iter()
+                            .map(|p| p.map(|o| format!("{:?}@{:x}", o.kind, o.loc)).unwrap_or_default())
+                            .collect();
+                        let sig = format!("{:?}|{:?}|{}", vals, pos, self.turn % self.readers);
+                        self.last_sig_at = view.log.len();
+                        self.sigs.push((sig, zero));
+                        let n = self.sigs.len();
+                        let period = self.readers;
+                        if n >= 3 * period + 1 {
+                            let same = (1..=2 * period).all(|k| self.sigs[n - k].0 == self.sigs[n - k - period].0);
+                            let nozero = (1..=2 * period).all(|k| !self.sigs[n - k].1);
+                            if same && nozero {
+                                self.verdict = Some(format!(
+                                    "the writer spun through {} barrier iterations; the last {} repeat with period {} while it never loaded a zero counter and every reader kept completing finite sections",
+                                    self.writer_hints, 2 * period, period
+                                ));
+                            }
+                        }
+                        self.turn += 1;
+                        self.phase = 0;
+                        continue;
+                    }
+                    if let Some(i) = Self::pick(view, w) {
+                        if at_hint {
+                            self.hints_in_turn += 1;
+                            self.writer_hints += 1;
+                        }
+                        return i;
+                    }
+                    // writer done or blocked: keep the readers going
+                    self.turn += 1;
+                    self.phase = 0;
+                    if view.pending[w].is_none() {
+                        return 0;
+                    }
+                }
+            }
+        }
+        0
+    }
+    fn verdict(&self) -> Option<String> {
+        self.verdict.clone()
+    }
+}
